@@ -117,6 +117,9 @@ def run(ctx):
                 continue
             if isinstance(r.value, (ast.List, ast.Tuple)) and not r.value.elts:
                 continue        # an empty sample needs no repair
+            pc_ = rules.path_conditions(astx.Parents(sf.node), r)
+            if isinstance(r.value, ast.Name) and any(pol_ and txt(t_) in (f"not {r.value.id}", f"len({r.value.id}) == 0", f"{r.value.id} == []") for t_, pol_ in pc_):
+                continue        # `if not jds: return jds`: the sample that is returned is empty
             if ok:
                 o.violated(sf, r, f"`return {txt(r.value)[:50]}` leaves sample_jds_from_jdd without the handshake patch: on that path the column sums need not be "
                                   "divisible by the motif sizes", shape_free=True)
